@@ -843,7 +843,8 @@ class ExecMixin:
             others = self.others_of(seq, st.target, guard[0], guard[1], state, st)
             if others is not None:
                 seq, body = others, guard[2]
-        cands = self._reduction_candidates(st) if seq.fixed is None or len(seq.fixed) > UNROLL else []
+        unroll = 30 if self.explicit else UNROLL
+        cands = self._reduction_candidates(st) if seq.fixed is None or len(seq.fixed) > unroll else []
         if not cands:
             self.run_loop(seq, st, state, lambda elem, s: self.assign(st.target, elem, s, st), lambda s: self.exec_block(body, s))
         else:
@@ -866,7 +867,7 @@ class ExecMixin:
     def run_loop(self, seq: Seq, node, state: State, bind, body) -> None:
         """Abstract `for`: bind(elem, state) then body(state), over all positions of `seq`."""
         frame = self.stack[-1]
-        if seq.fixed is not None and len(seq.fixed) <= UNROLL and seq.witness is None:
+        if seq.fixed is not None and len(seq.fixed) <= (30 if self.explicit else UNROLL) and seq.witness is None:
             # concrete unrolling: no token; the context only collects break/continue
             lid = self.site_id("unrolled", node)
             lc = LoopCtx(lid, f"u{lid}", seq.length, True)
